@@ -1874,11 +1874,13 @@ class SolveUnc(_BaseODE):
             else:
                 a_rb = force[rb]
             if "d" in incrb or "v" in incrb:
-                pvnz = freqw != 0
+                pvnz = (freqw != 0).nonzero()[0]
+                # `rb` is an index vector if partitions are not contiguous:
+                pv = (rb, pvnz) if isinstance(rb, slice) else np.ix_(rb, pvnz)
                 if "v" in incrb:
-                    v[rb, pvnz] = (-1j / freqw[pvnz]) * a_rb[:, pvnz]
+                    v[pv] = (-1j / freqw[pvnz]) * a_rb[:, pvnz]
                 if "d" in incrb:
-                    d[rb, pvnz] = (-1.0 / freqw2[pvnz]) * a_rb[:, pvnz]
+                    d[pv] = (-1.0 / freqw2[pvnz]) * a_rb[:, pvnz]
             if "a" in incrb:
                 a[rb] = a_rb
 
